@@ -90,8 +90,23 @@ def _kind_of(v):
 def _code_text(ev):
     if ev['kind'] == 'eval':
         return '\n'.join(ev['lines'])
+    if ev['kind'] == 'fstr_bare':
+        return _fstr_literal(ev['body'])    # a Python f-string whose content is the given text
     q = '"' if "'" in ev['body'] else "'"
     return 'f' + q + ev['body'] + q
+
+
+def _fstr_literal(body):
+    """Some way of writing the Python f-string with content ``body`` as a literal (any that compiles)."""
+    for q in ("'", '"', "'''", '"""'):
+        if q not in body and not body.endswith(q[0]) and not body.endswith('\\'):
+            text = 'f' + q + body + q
+            try:
+                compile(text, '<fstr>', 'eval')
+                return text
+            except SyntaxError:
+                continue
+    return 'f' + repr(body)
 
 
 def reference_build(build):
@@ -138,10 +153,12 @@ def _gen_env(r, variant, flags):
     """Config entries and symbols of one build; ``variant`` shifts the values so that builds of a history differ."""
     cfg = [['ca', 3 + variant], ['cb', 7 * (variant + 1)], ['cs', 'txt%d' % variant], ['cflag', variant % 2 == 0],
            ['cl', [1 + variant, 2, 3 + 2 * variant]], ['cm', {'x': 5 + variant, 'y': [4, 5]}], ['cz', 0]]
-    if flags['max']:
-        cfg.append(['max', 40 + variant])
+    if flags['max'] and (not flags['vary'] or r.random() < 0.5):
+        cfg.append(['max', 40 + variant])            # shadows a builtin - in some builds of the history only
     if flags['shared']:
         cfg.append(['shared', 100 + variant])
+    if flags['extra'] and (not flags['vary'] or r.random() < 0.5):
+        cfg.append(['extra', 900 + variant])         # programs read it: NameError in the builds that lack it
     r.shuffle(cfg)
     syms = {'s1': {'k': 'val', 'v': 10 * (variant + 1)}, 'scale': {'k': 'fun', 'mul': 2 + variant, 'add': variant},
             'ctxm': {'k': 'cm', 'd': variant}}
@@ -151,8 +168,12 @@ def _gen_env(r, variant, flags):
         syms['ca'] = {'k': 'val', 'v': 500 + variant}
     env = {'ca': 'int', 'cb': 'int', 'cs': 'str', 'cflag': 'bool', 'cl': 'list', 'cm': 'map', 'cz': 'int', 's1': 'int', 'scale': 'fun1', 'ctxm': 'cm'}
     for k, v in cfg:
-        if k in ('max', 'shared'):
+        if k in ('max', 'shared', 'extra'):
             env[k] = 'int'
+    if flags['extra']:
+        env['extra'] = 'int'
+    if flags['max']:
+        env['max'] = 'int'
     return cfg, syms, env
 
 
@@ -160,7 +181,7 @@ def _gen_evals(r, env, n):
     evals = []
     env = dict(env)
     for i in range(n):
-        kind = r.choice(['eval', 'eval', 'eval', 'fstr', 'fstr_implicit'])
+        kind = r.choice(['eval', 'eval', 'eval', 'fstr', 'fstr_implicit', 'fstr_bare'])
         g = ProgGen(r, env, p_error=r.choice([0.0, 0.1, 0.3]))
         key = f'e{i}'
         if kind == 'eval':
@@ -171,6 +192,8 @@ def _gen_evals(r, env, n):
             ev = {'key': key, 'kind': 'eval', 'lines': lines, 'features': sorted(g.features)}
         else:
             body = g.fstring()
+            if kind == 'fstr_bare' and r.random() < 0.5:
+                body += r.choice([' "quoted"', " it's", ' "a" and \'b\'', ' {cm["x"]}', " {cm['x']}"])
             if kind == 'fstr_implicit' and (': ' in body or ' #' in body or body.endswith(':')):
                 kind = 'fstr'    # not expressible as a plain YAML scalar
             ev = {'key': key, 'kind': kind, 'body': body, 'features': sorted(g.features)}
@@ -182,7 +205,7 @@ def _gen_evals(r, env, n):
 def generate(r, tier, index):
     n_builds = r.choice([1, 2, 2, 3, 4])
     n_evals = r.randrange(1, 4)
-    flags = {'max': r.random() < 0.15, 'shared': r.random() < 0.3}
+    flags = {'max': r.random() < 0.2, 'shared': r.random() < 0.3, 'extra': r.random() < 0.3, 'vary': r.random() < 0.6}
     cfg0, syms0, env0 = _gen_env(r, 0, flags)
     base_evals = _gen_evals(r, env0, n_evals)
     # kinds of eval results (for dependent programs): compute natively, then let a later node read an earlier one
@@ -235,6 +258,8 @@ def _doc_text(build):
             val = '!eval ' + json.dumps('\n'.join(ev['lines']))
         elif ev['kind'] == 'fstr':
             val = '!fstr ' + json.dumps(_code_text(ev))
+        elif ev['kind'] == 'fstr_bare':
+            val = '!fstr ' + json.dumps(ev['body'])     # only the content: the node adds f'...' itself
         else:
             val = _code_text(ev)
         if ev['where'] == 'top' or ev['kind'] == 'fstr_implicit':
@@ -259,15 +284,17 @@ def _locate(cfg, build, ev):
     return cfg['seq'][idx]
 
 
-def _do_build(build, fs, rec):
+def _do_build(build, fs, rec, unique=None):
     from awesomeyaml import Builder, Config, EvalContext, errors
     text = _doc_text(build)
     syms = _mk_symbols(build['symbols'])
     try:
         b = Builder()
         if build['via'] == 'file' and build['filename']:
-            fs.files[build['filename']] = text
-            b.add_source(build['filename'], raw_yaml=False)
+            # concurrent builds must not overwrite each other's file on the shared simulated disk
+            fname = build['filename'] if unique is None else build['filename'].replace('.yaml', f'.build{unique}.yaml')
+            fs.files[fname] = text
+            b.add_source(fname, raw_yaml=False)
         else:
             b.add_source(text, raw_yaml=True, filename=build['filename'])
         root = b.build()
@@ -314,7 +341,7 @@ def _run(sc):
                 core.journal({'build_start': i})
                 sched.begin_op(f'build{i}', 3_000_000)
                 try:
-                    _do_build(builds[i], fs, out[i])
+                    _do_build(builds[i], fs, out[i], unique=(i if sc.get('par') else None))
                 except sched.SimTimeout:
                     out[i]['status'] = 'timeout'
                 sched.end_op()
